@@ -55,6 +55,16 @@ CHECKS = {
    design_ref='DESIGN.md 6/C13',
    note='For eagle / NSGA-II / CMA-ES the premise load∘dump ≈ id is NOT proved (numeric arrays + library RNG state): it is established per run by the differential tie and lifted by the generic theorem (partial). String/float codecs and library RNG determinism are correspondence items. Two known findings (NSGA-II sampler state, CMA-ES partial population not persisted); three defects repaired by fix: commits (shuffled grid hosting, NSGA-II trial counter, CMA_ES seed=None).',
    technique='Lean 4 theorem proving (generic restart theorem + grid/Halton instances) + differential correspondence on the real designers and the real service'),
+ 'C04': dict(
+   text='Lean 4: for every initial study, every pair of study-lock RPCs (CompleteTrial, AddTrialMeasurement, StopTrial, CreateTrial, UpdateMetadata, SetStudyState) with arbitrary arguments and every interleaving of their unguarded study checks and critical sections, what both callers observe (success / error class, trials handed out) and the final stored study equal those of one of the two serial orders (critical sections are M1\'s RPC bodies; proof by state-independence / commutation lemmas). The tie to the current source is a translator: on every run the per-RPC table of datastore calls and the service locks held around each is regenerated from the AST of vizier_service.py into Lean, and kernel-checked obligations require it to equal the model\'s table and to satisfy the lock discipline (all critical calls of those RPCs under the study lock; every study-data write under the study lock; id allocation under the study lock); kernel-checked witnesses of the two pinned-commit races (duplicate id, lost metadata update). The property itself is decided on the REAL servicer by a deterministic scheduler that runs pairs of RPCs (22 request templates of the 11 RPC kinds, three prefixes, RAM and SQLite) under EVERY interleaving of datastore calls and lock acquisitions and compares each outcome (renumbering new trials, early-stop answers exempt) with both serial orders; deadlocks are reported.',
+   design_ref='DESIGN.md 6/C04',
+   note='PARTIAL: theorems cover two threads, study-lock RPCs, at critical-section granularity (mutual exclusion of threading.Lock and atomicity of a datastore call under the datastore lock are trusted; the translator\'s completeness is trusted). SuggestTrials, CheckTrialEarlyStoppingState, DeleteTrial, DeleteStudy, CreateStudy pairs and all schedules at datastore-call granularity are covered by the exhaustive exploration on the real code only; three concurrent RPCs are not explored. UpdateMetadataResponse.error_details is compared as the NOT_FOUND class. Five races repaired by fix: commits.',
+   technique='Lean 4 theorem proving (two-thread serialisability by commutation) + AST translator with kernel-checked shape obligations + exhaustive schedule exploration on the real servicer'),
+ 'C18': dict(
+   text='Lean 4 + Mathlib ordered-field proofs over a model of the output warpers (NaN = bottom element; Φ⁻¹, log1p, sqrt, exp, gaussian quantile abstract and monotone; any list length): length preserved and exactly +inf arrays rejected; every component weakly order-preserving; the default pipeline (half-rank -> log -> infeasible) outputs finite labels of the same length with x<y <-> w x<w y and x=y -> w x=w y on finite entries, with or without infeasible entries, and every infeasible entry no higher than (strictly below, once two distinct labels exist) every feasible one; the outlier pipeline outputs finite labels and never reverses an order; all denominators non-zero under the branch guards; unwarp∘warp = id for log, infeasible, half-rank (intended threshold) and linear; counterexample theorems for the two as-written deviations of the pinned commit. Tie: both pipelines and seven components, real vs model, on generated arrays (ties, 24 orders of magnitude, NaN/-inf), order types compared exactly against an exact-rational model run, values to rtol 1e-9 (2e-4 on the tfp float32 path); aliasing checks; small-scope enumeration; property judged on the real outputs.',
+   design_ref='DESIGN.md 6/C18',
+   note='Float64/float32 behaviour is not proved (by design): three float-resolution / overflow known findings (dynamic range beyond float64 resolution, infeasible margin absorbed at large magnitude, labels near float64 max); weak monotonicity and finiteness are still enforced on those inputs. The interpolation branch of the half-rank inverse for unobserved values is not proved. Four defects repaired by fix: commits.',
+   technique='Lean 4 + Mathlib ordered-field proofs (list induction, linarith/field_simp) + differential correspondence with Float and exact-rational model instances'),
 }
 
 NOT_YET = 'not yet built in this session (machinery in progress; see DESIGN.md section 7 build order)'
